@@ -135,9 +135,10 @@ def close(a, b, rtol=3e-5, atol=1e-6):
   return abs(a - b) <= atol + rtol * max(abs(a), abs(b))
 
 
-def check_records(recorder, rng, max_tids=64):
+def check_records(recorder, rng, max_tids=64, replay_allocs=False):
   """Runs the Lean driver on the recorded launches. Returns summary dict with disagreements."""
   lines, plan = [], []
+  deferred = []
   for ri, r in enumerate(recorder.records):
     sig = recorder.sigs[r["kernel"]]
     ks = sig["kernel"]
@@ -170,10 +171,15 @@ def check_records(recorder, rng, max_tids=64):
           break
       elif n == "fuel":
         v = FUEL
+      elif n.startswith("alloc"):
+        v = "ALLOC"
+        r["has_alloc"] = True
       else:
         skip = f"no value for scalar parameter {n}"
         break
-      if t == "F":
+      if isinstance(v, str) and v == "ALLOC":
+        toks.append("@" + n)
+      elif t == "F":
         toks.append(str(int(np.array([v], dtype=np.float32).view(np.uint32)[0])))
       elif t == "B":
         toks.append("1" if v else "0")
@@ -184,6 +190,19 @@ def check_records(recorder, rng, max_tids=64):
       continue
     dim = r["dim"]
     ntot = int(np.prod(dim))
+    if r.get("has_alloc") and not replay_allocs:
+      r["skip"] = "allocating kernel (serial replay not requested)"
+      continue
+    if r.get("has_alloc"):
+      # allocation results are inputs of the model task: they are reconstructed by replaying the launch serially (pass 2)
+      if ntot > 512:
+        r["skip"] = "allocating kernel with too many tasks to replay serially"
+        continue
+      r["alloc_toks"] = toks
+      r["all"] = True
+      r["tids"] = [list(np.unravel_index(f, dim))[: ks["ntid"]] + [0] * max(0, ks["ntid"] - len(dim)) for f in range(ntot)]
+      deferred.append(ri)
+      continue
     if ntot <= max_tids:
       ids = list(range(ntot))
       r["all"] = True
@@ -198,6 +217,10 @@ def check_records(recorder, rng, max_tids=64):
       r["tids"].append(tid)
       lines.append(f"k32 {r['kernel']} {len(tid)} " + " ".join(str(int(t)) for t in tid) + (" " + " ".join(toks) if toks else ""))
       plan.append(("task", ri, tid))
+  for ri in deferred:
+    extra_lines, extra_plan = replay_alloc(recorder, ri)
+    lines += extra_lines
+    plan += extra_plan
   if not lines:
     return {"launches": 0, "tasks": 0, "disagreements": [], "kernels": {}, "skipped": {}}
   p = subprocess.run(["lake", "env", "lean", "--run", "Driver/Main.lean"], cwd=LEAN, input="\n".join(lines) + "\n", capture_output=True, text=True)
@@ -290,7 +313,7 @@ def check_records(recorder, rng, max_tids=64):
         exp = before.copy()
         for kd, vals in ups:
           v = np.asarray(vals, dtype=np.float64)
-          if kd == "aadd":
+          if kd in ("aadd", "alloc"):
             exp = exp + v
           elif kd == "asub":
             exp = exp - v
@@ -328,3 +351,68 @@ def check_records(recorder, rng, max_tids=64):
 
 def guess_static(n, r):
   return None
+
+
+def run_driver(lines):
+  p = subprocess.run(["lake", "env", "lean", "--run", "Driver/Main.lean"], cwd=LEAN, input="\n".join(lines) + "\n", capture_output=True, text=True)
+  if p.returncode != 0:
+    raise RuntimeError("lean driver failed: " + p.stderr[-3000:])
+  out = p.stdout.split("\n")
+  if out and out[-1] == "":
+    out.pop()
+  return out
+
+
+def parse_writes(line):
+  ws = []
+  body = line[2:].strip()
+  if body:
+    for wtxt in body.split(";"):
+      arr, idx, kd, val = wtxt.split("|")
+      idx = tuple(int(x) for x in idx.split(",")) if idx else ()
+      vk, vv = val.split(":", 1)
+      ws.append((arr, idx, kd, vk, vv))
+  return ws
+
+
+def replay_alloc(recorder, ri):
+  """Serial replay (ascending task order = Warp's CPU schedule) to reconstruct the values returned by allocating atomics.
+  Fix-point over passes: allocation results feed guards that decide later atomics."""
+  r = recorder.records[ri]
+  sig = recorder.sigs[r["kernel"]]
+  ks = sig["kernel"]
+  alloc_names = [n for n, t in ks["scalars"] if n.startswith("alloc")]
+  head = ["clr"] + [encode_array(pn, r["before"][pn], t) for pn, t in ks["arrays"]]
+  allocs = {tuple(t): {a: 0 for a in alloc_names} for t in r["tids"]}
+  final_lines = None
+  for _ in range(5):
+    lines = list(head)
+    for tid in r["tids"]:
+      toks = [str(allocs[tuple(tid)][t[1:]]) if t.startswith("@") else t for t in r["alloc_toks"]]
+      lines.append(f"k32 {r['kernel']} {len(tid)} " + " ".join(str(int(x)) for x in tid) + (" " + " ".join(toks) if toks else ""))
+    out = run_driver(lines)[len(head):]
+    counters = {}
+    new = {}
+    for tid, line in zip(r["tids"], out):
+      cur = {}
+      if line.startswith("W"):
+        k = 0
+        for arr, idx, kd, vk, vv in parse_writes(line):
+          if kd in ("alloc", "aadd", "asub") and vk == "i":
+            key = (arr, idx)
+            if key not in counters:
+              try:
+                counters[key] = int(np.asarray(r["before"][arr][idx]))
+              except Exception:
+                counters[key] = 0
+            if kd == "alloc" and k < len(alloc_names):
+              cur[alloc_names[k]] = counters[key]
+              k += 1
+            counters[key] += int(vv) if kd != "asub" else -int(vv)
+      new[tuple(tid)] = {a: cur.get(a, 0) for a in alloc_names}
+    final_lines = lines
+    if new == allocs:
+      break
+    allocs = new
+  plan = [("ctl", ri)] * len(head) + [("task", ri, tid) for tid in r["tids"]]
+  return final_lines, plan
